@@ -26,7 +26,8 @@ def make_frame(rng, n=None, factorial=False, nlev=None, cats=None, extra_cols=Tr
             nlev[v] = rng.choice(pool if v != "g" else [2, 3, 4, 5])
         nlev[v] = min(nlev[v], len(LEVELS.get(v, "12345")))
     lev = {v: LEVELS[v][:nlev[v]] for v in CAT_VARS}
-    lev["k"] = list(range(1, nlev["k"] + 1))
+    # integer codes whose text order differs from their numeric order (10 < 2 as text), one negative
+    lev["k"] = [2, 10, -3, 11, 100][:nlev["k"]]
     if factorial:
         combos = list(itertools.product(*[lev[v] for v in cats]))
         if reps is None:
@@ -119,7 +120,9 @@ def rand_common(rng, nterms=None, **kw):
 
 def rand_group(rng):
     eff = rng.choice(["1", "x", "0 + x", "f", "0 + f", "x + z", "center(x)", "x:f", "0 + x + z", "1 + x", "h",
-                      "C(k)", "0 + C(k)", "scale(z)", "x*f"])
+                      "C(k)", "0 + C(k)", "scale(z)", "x*f",
+                      # effects that are multi-column numeric transforms (their block is #groups x #columns wide)
+                      "0 + bs(x, df=3)", "bs(x, df=3)", "0 + poly(x, 2, raw=True)"])
     grp = rng.choice(["g", "g:h", "g + h", "g/h", "C(k)", "h", "k", "o", "f:h"])
     return f"({eff} | {grp})"
 
